@@ -15,7 +15,7 @@ ASSUMPTIONS = ['inputs inside the documented domain (tmin<tmax, disjoint existin
                'row-difference predicate applied to full-data summaries only when their times are distinct (summary() keys rows by time)']
 BUDGET = {'quick': 150, 'thorough': 1200}
 CHUNK = {'quick': 40, 'thorough': 200}
-START_PREDS = {'row0_counts', 'statuses_at_tmin', 'recovered_history', 'recovered_node_infected'}
+START_PREDS = {'row0_counts', 'statuses_at_tmin', 'node_status_at_tmin', 'recovered_history', 'recovered_node_infected'}
 REQUIRED = ['big_network_runs', 'contract_evaluations', 'row_moves_checked', 'extinction_checked', 'repo_sweep_tests_under_contracts'] + ['calls:' + s for s in simreg.ALL_SIMS]
 MINE = lambda pred: pred not in START_PREDS
 
